@@ -79,6 +79,7 @@ public:
         do {
             op->next.store(res, std::memory_order_relaxed);
         } while (!pending_operations.compare_exchange_strong(res, op));
+        __TBB_VERIF_POINT(vp_agg_op_pushed, this, res == nullptr);
         if (!res) { // first in the list; handle the operations
             // ITT note: &pending_operations tag covers access to the handler_busy flag,
             // which this waiting handler thread will try to set before entering
@@ -122,6 +123,7 @@ private:
         // handler_busy has been set and a new active handler will now process that list's
         // operations.
         call_itt_notify(releasing, &pending_operations);
+        __TBB_VERIF_POINT(vp_agg_before_grab, this, 0);
         // grab pending_operations
         op_list = pending_operations.exchange(nullptr);
 
